@@ -155,6 +155,17 @@ Theorem payout_close_to_fair_share :
 Proof. exact payout_lemma. Qed.
 Print Assumptions payout_close_to_fair_share.
 
+(** ... and an [Act] is exactly what the model's CaclRewards (hence stake / harvest / unstake) does for the
+    rule at any position [i] of a pool: payment [pay_of], new debt [new_debt] (a missing debt counts as 0). *)
+Theorem cacl_rewards_is_act :
+  forall (rs : list rule) (l : Z) (ds : list Z) (delta : Z) (rw : list (denom * Z)) (db : list Z) (i : nat) (r0 : rule),
+    cacl rs l ds delta = Some (rw, db) -> (i < length rs)%nat ->
+    let r := nth i rs r0 in
+    nth i rw (0, 0) = (r_denom r, pay_of (r_rps r) l (nth i ds 0))
+    /\ nth i db 0 = new_debt (r_rps r) l (nth i ds 0) delta.
+Proof. exact cacl_is_act. Qed.
+Print Assumptions cacl_rewards_is_act.
+
 (** non-vacuity: a valid event list with fractional per-share values; the farmer leaves having been
     paid 6 of an exact share of 6.66..., after 4 interactions *)
 Example c06_nonvacuous :
